@@ -691,8 +691,10 @@ class Models:
 
             # Stop the iterations if the current interpolation point is nearly
             # feasible and has an objective function value below the target.
+            # The target is compared with the value returned by the objective
+            # function, not with the value obtained after the extreme barrier.
             if (
-                self._fun_val[k] <= options[Options.TARGET]
+                pb.fun_last <= options[Options.TARGET]
                 and pb.maxcv(
                     self.interpolation.point(k),
                     self.cub_val[k, :],
